@@ -430,3 +430,68 @@ M("c09-tol-dropped", "C09", SCIPY,
   '''            tol=tol,
             options=options if options else None,''', '''            tol=None,
             options=options if options else None,''', "R09.1", "minimize(tol=)")
+
+# ----------------------------------------------------------------------------- C01
+M("c01-minus-arm-adds", "C01", COMPILER,
+  '''        elif op == "-":
+            return lambda x, lf=left_fn, rf=right_fn: lf(x) - rf(x)''', '''        elif op == "-":
+            return lambda x, lf=left_fn, rf=right_fn: lf(x) + rf(x)''', "R01.3", "_build_evaluator")
+M("c01-div-operands-swapped", "C01", COMPILER,
+  '''        elif op == "/":
+            return lambda x, lf=left_fn, rf=right_fn: lf(x) / rf(x)''', '''        elif op == "/":
+            return lambda x, lf=left_fn, rf=right_fn: rf(x) / lf(x)''', "R01.3", "_build_evaluator")
+M("c01-iterative-pops-swapped", "C01", COMPILER,
+  '''                right_fn = result_stack.pop()
+                left_fn = result_stack.pop()''', '''                left_fn = result_stack.pop()
+                right_fn = result_stack.pop()''', "R01.", "_build_evaluator_iterative")
+M("c01-iterative-push-order", "C01", COMPILER,
+  '''                stack.append((node.right, 0, []))
+                stack.append((node.left, 0, []))''', '''                stack.append((node.left, 0, []))
+                stack.append((node.right, 0, []))''', "R01.", "_build_evaluator_iterative")
+M("c01-vectorsum-own-order", "C01", COMPILER,
+  '''        # sum(x) = x[0] + x[1] + ... - efficient numpy implementation
+        indices = np.array([var_indices[v.name] for v in expr.vector._variables])
+        return lambda x, idx=indices: np.sum(x[idx])''', '''        # sum(x) = x[0] + x[1] + ... - efficient numpy implementation
+        indices = np.arange(len(expr.vector._variables))
+        return lambda x, idx=indices: np.sum(x[idx])''', "R01.5", "_build_evaluator")
+M("c01-parameter-value-hoisted", "C01", COMPILER,
+  '''        param = expr
+        return lambda x, p=param: p.value''', '''        param = expr.value
+        return lambda x, p=param: p''', "R01.6", "_build_evaluator")
+M("c01-l1norm-drops-abs", "C01", COMPILER,
+  '''        vec_fn = _build_vector_evaluator(expr.vector, var_indices)
+        return lambda x, vf=vec_fn: np.sum(np.abs(vf(x)))''', '''        vec_fn = _build_vector_evaluator(expr.vector, var_indices)
+        return lambda x, vf=vec_fn: np.sum(vf(x))''', "R01.7", "L1Norm")
+M("c01-dot-uses-left-twice", "C01", COMPILER,
+  '''        left_fn = _build_vector_evaluator(expr.left, var_indices)
+        right_fn = _build_vector_evaluator(expr.right, var_indices)
+        return lambda x, lf=left_fn, rf=right_fn: np.dot(lf(x), rf(x))''', '''        left_fn = _build_vector_evaluator(expr.left, var_indices)
+        right_fn = _build_vector_evaluator(expr.left, var_indices)
+        return lambda x, lf=left_fn, rf=right_fn: np.dot(lf(x), rf(x))''', "R01.7", "DotProduct")
+M("c01-ops-table-sin-cos", "C01", EXPR,
+  '''        "sin": np.sin,
+        "cos": np.cos,
+        "tan": np.tan,
+        "exp": np.exp,''', '''        "sin": np.sin,
+        "cos": np.sin,
+        "tan": np.tan,
+        "exp": np.exp,''', "R01.3", "UnaryOp._OPS")
+M("c01-linearcombination-hash-dropped", "C01", VECTORS,
+  '''        self.coefficients = coefficients
+        self.vector = vector
+        self._hash = None''', '''        self.coefficients = coefficients
+        self.vector = vector''', "R01.2", "LinearCombination")
+M("c01-superclass-arm-shadows", "C01", COMPILER,
+  '''    elif isinstance(expr, LinearCombination):
+        # c @ x = c[0]*x[0] + c[1]*x[1] + ... - efficient numpy implementation''', '''    elif isinstance(expr, Expression) and False:
+        raise InvalidExpressionError(expr_type=type(expr), context="x", suggestion="y")
+
+    elif isinstance(expr, (BinaryOp, Expression)):
+        return _build_evaluator_iterative(expr, var_indices)
+
+    elif isinstance(expr, LinearCombination):
+        # c @ x = c[0]*x[0] + c[1]*x[1] + ... - efficient numpy implementation''', "R01.8", "_build_evaluator")
+M("c01-quadform-iterative-wrong", "C01", COMPILER,
+  '''            result_stack.append(lambda x, vf=vec_fn, Q=Q: float(vf(x) @ Q @ vf(x)))''', '''            result_stack.append(lambda x, vf=vec_fn, Q=Q: float(vf(x) @ vf(x)))''', "R01.7", "QuadraticForm")
+M("c01-vectorpowersum-closure-wrong", "C01", COMPILER,
+  '''        return lambda x, idx=indices, k=power: float(np.sum(x[idx] ** k))''', '''        return lambda x, idx=indices, k=power: float(np.sum(x[idx]) ** k)''', "R01.7", "VectorPowerSum")
